@@ -1,5 +1,41 @@
+import SamVerif.Model.Scope
+import Driver.ScopeIO
 import Driver.Util
-/-! Line-protocol driver for property C15 (model side). Not implemented yet. -/
+/-! Line-protocol driver for property C15 (model side).
+  `ssa <module dump>`                  -> canonical result of `SamVerif.Scope.analyze`
+  `q <module dump> ;; <occurrence ids>` -> `occ:def:refs` per occurrence
+     (`find_all_definition_and_uses`, variable_definition.rs:41-50, on the model's analysis) -/
+namespace Driver.C15
+open SamVerif.Scope Driver Driver.ScopeIO
+
+def splitAt2 (toks : List String) : List String × List String :=
+  (toks.takeWhile (· ≠ ";;"), (toks.dropWhile (· ≠ ";;")).drop 1)
+
+def answer (st : St String) (o : Nat) : String :=
+  let d := (lookupKV o st.useDef).getD o
+  match lookupKV d (defToUse st) with
+  | none => s!"{o}:none:"
+  | some us =>
+    let sorted := (us.eraseDups.mergeSort (fun a b => decide (a ≤ b)))
+    s!"{o}:{d}:{"+".intercalate (sorted.map toString)}"
+
+def step (_ : Unit) (line : String) : Unit × String :=
+  match words line with
+  | "ssa" :: toks =>
+    match parseModule toks with
+    | some m => ((), render (analyze "this" m))
+    | none => ((), "bad-dump")
+  | "q" :: toks =>
+    let (dump, occ) := splitAt2 toks
+    match parseModule dump with
+    | some m =>
+      let st := analyze "this" m
+      ((), ",".intercalate (occ.map fun o => answer st o.toNat!))
+    | none => ((), "bad-dump")
+  | _ => ((), "bad-op")
+
+end Driver.C15
+
 def main (_args : List String) : IO UInt32 := do
-  IO.eprintln "drv-c15: not implemented yet"
-  return 2
+  Driver.runLoop () Driver.C15.step
+  return 0
